@@ -888,6 +888,7 @@ func (a *Act) applyUse(env *Env, u UseHint, reach string, where string) {
 	if lm.Assumed {
 		g.usedAssumed["lemma "+lm.Name] = true
 	}
+	g.usedLemmas[lm.Name] = true
 }
 
 type GhostUpdate struct {
